@@ -20,6 +20,11 @@ CHECKS["C11"] = dict(cat=MC, engine="E2 xseq (bounded-exhaustive datagram sequen
    text="Size x MTU grid (13 MTUs, boundary sizes, real Frame and transparent buffer); every permutation of <=6 (thorough 7) fragments with one duplicate of any fragment at any position; every arrival order of 2-3 frames; 10 malformed datagrams (and pairs) at every position; structured (thorough: all length<=6) expiry sequences with id reuse on the real clock; id wrap. Compared with the reference after every datagram.",
    note="Trusts: list reference as the spec; real clock for expiry (ambiguous timings are discarded, never judged). MTU >= 5. Frames needing >255 fragments are 'not representable' (may be dropped, never mangled). Two-writer id collisions are checked under C10.",
    ref="DESIGN.md §3 C11")
+CHECKS["C12"] = dict(cat=MC, engine="E1 xsched, environment-only form (segmentation enumeration over an in-memory AsyncRead)",
+   technique="exhaustive enumeration of network segmentations (all 2^(n-1) for short inputs, all 1-/2-cut sets + bytewise otherwise) and of every truncation point, on the real decoders vs single-segment baseline",
+   text="69 valid messages of every stream codec (HTTP request/response heads, SOCKS4/4a/5 negotiation+request, replies, 1-3 RPFM frames) with 0/1/5 bytes of trailing payload are decoded by the real decoders under every enumerated segmentation; parsed message and unread remainder must equal the single-segment run; EOF after every proper prefix must not yield a message.",
+   note="Trusts: the in-memory stream (one segment per poll_read). Not covered: all subsets of cuts for messages longer than 14 (thorough 18) bytes.",
+   ref="DESIGN.md §3 C12")
 NOT_YET = "check not built yet in this revision (see DESIGN.md §3 for the planned model-checking design)"
 def main():
     checks = []
